@@ -359,9 +359,9 @@ func init() {
 		Rule: "one run = a history of 2..15 operations {send(size from 0..300000 incl. 4095/4096/4097 and 32768+-1, 0..5 or 250..257 descriptors, optional explicit credentials, optionally a closed descriptor in the list), recv(full-size or too small buffer), close(end)} on both ends of one real SEQPACKET pair, on the raw pkg/unixsocket layer or the gob-framed layer of package container (five message shapes, first use of a type may fall on a rejected send); every step is compared with a FIFO reference model of (bytes, open-file identities, credentials), and the process descriptor count is compared with the model after every step. distinct = hash of (operation, size class, descriptor count, outcome) sequence; non-trivial = a rejected send, too small buffer, closed descriptor or closed end occurred",
 		Components: map[string]string{
 			"pkg/unixsocket (SendMsg, RecvMsg, NewSocketPair, SetPassCred)": "real",
-			"container gob framing (socket.SendMsg/RecvMsg, 32 KiB cap)":     "real, reached through a tagged export of its constructor",
-			"kernel SEQPACKET socket":                                        "real",
-			"the two endpoints (who sends/receives/closes what, when)":       "simulator, one choice stream; receives are issued only for messages the model says are queued, so nothing blocks",
+			"container gob framing (socket.SendMsg/RecvMsg, 32 KiB cap)":    "real, reached through a tagged export of its constructor",
+			"kernel SEQPACKET socket":                                       "real",
+			"the two endpoints (who sends/receives/closes what, when)":      "simulator, one choice stream; receives are issued only for messages the model says are queued, so nothing blocks",
 		},
 		Assumptions: []string{"sequential histories: the two ends are driven by one simulator thread, so the schedule is the operation order"},
 		Quick:       vcore.Budget{Wall: 25 * time.Second, Shards: 16},
